@@ -71,3 +71,15 @@ Definition laycase_status (c : laycase) : N :=
            end
        | _ => 1
        end.
+
+(* ---- numpy's aligned structured dtypes against Model.PyTyped.np_layout (harness/checks/c14.py, numpy_layout_layer) ---- *)
+From YV Require Import Model.CodedCpp Model.CodedPy Model.PyTyped.
+(* record type, numpy itemsize, alignment, packed itemsize, has object-typed members *)
+Definition npcase := (ty * N * N * N * bool)%type.
+(* 0 agree; 1 not modelled (a member has no numeric dtype); 2 itemsize; 3 alignment; 4 packed size differs *)
+Definition npcase_status (c : npcase) : N :=
+  let '(t, sz, al, pk, hasobj) := c in
+  match np_layout t with
+  | Some (s, a, p) => if negb (s =? sz) then 2 else if negb (a =? al) then 3 else if negb (p =? pk) then 4 else 0
+  | None => 1
+  end.
